@@ -132,6 +132,46 @@ impl Prop for C14 {
         let text = format!("{}\n{}", before.join("\n"), cmd);
         mon::journal(&text);
 
+        // one case in twelve: RENUM must refuse -- as a statement of the program, or while the program
+        // has a compile-time error -- and then change nothing
+        if _idx % 12 == 11 {
+            let mut lines = before.clone();
+            let last = *nums.iter().max().unwrap_or(&0);
+            let in_program = rng.coin();
+            let what = if in_program {
+                lines.insert(0, format!("{} {}", nums[0].saturating_sub(0), before[0].splitn(2, ' ').nth(1).unwrap_or("REM")));
+                lines.remove(1);
+                lines.push(format!("{} {}", last + 1, cmd));
+                "as a program statement"
+            } else {
+                lines.push(format!("{} GOTO {}", last + 1, last + 7));
+                "with a compile-time error in the program"
+            };
+            let mut b = typed(&lines);
+            let listing_before = b.listing_text();
+            let c2 = if in_program { format!("RUN {}", last + 1) } else { cmd.clone() };
+            let (t, st, evs) = run(&mut b, &c2);
+            let errors: Vec<String> = evs.iter().filter_map(|e| if let Ev::Error(d, _, _) = e { Some(d.clone()) } else { None }).collect();
+            ctx.eval(&format!("{}\n{}", lines.join("\n"), c2), true);
+            ctx.count("refusals_checked");
+            if st != Stop::Stopped || b.listing_text() != listing_before || errors.is_empty() {
+                ctx.violation(
+                    "refusal",
+                    &format!("renum:refusal:{}", if in_program { "in-program" } else { "compile-error" }),
+                    &format!(
+                        "RENUM {} must be refused and change nothing: stop={:?}, listing changed={}, errors {:?}, output {:?}",
+                        what,
+                        st,
+                        b.listing_text() != listing_before,
+                        errors,
+                        t
+                    ),
+                    &format!("{}\n{}", lines.join("\n"), c2),
+                );
+            }
+            return;
+        }
+
         // reference renumbering
         let mut q = p.clone();
         let mut valid = step > 0 && new_start <= 65_529 && old_start <= 65_529 && step <= 65_529;
